@@ -748,6 +748,23 @@ Proof.
   rewrite csumn_weighted_abs2 in E'. injection E' as E'. rewrite <- E'. apply sumn_ext. intros; csimp; ring.
 Qed.
 
+(* every eigenvalue is attained by the quadratic form on a unit vector *)
+Lemma eig_attained k0 : (k0 < N)%nat ->
+  exists x, vnorm2 N x = 1 /\ qform N A x = (D k0, 0).
+Proof.
+  intros Hk0. exists (fun r => V r k0). rewrite qform_eig, norm_eig.
+  assert (Ey : forall k, (k < N)%nat -> ycoef (fun r => V r k0) k = if Nat.eqb k0 k then 1c else 0c).
+  { intros k Hk. unfold ycoef. destruct HV as [H1' _]. specialize (H1' k0 k Hk0 Hk).
+    unfold fmul, fadj, fid in H1'. exact H1'. }
+  split.
+  - transitivity (fst (csumn' N (fun k => if Nat.eqb k0 k then 1c else 0c))).
+    + rewrite csumn_re. apply sumn_ext. intros k Hk. rewrite Ey by auto. destruct (Nat.eqb k0 k); csimp; ring.
+    + rewrite (csumn_delta N k0 (fun _ => 1c)) by auto. reflexivity.
+  - f_equal. transitivity (fst (csumn' N (fun k => if Nat.eqb k0 k then (D k, 0) else 0c))).
+    + rewrite csumn_re. apply sumn_ext. intros k Hk. rewrite Ey by auto. destruct (Nat.eqb k0 k); csimp; ring.
+    + rewrite (csumn_delta N k0 (fun k => (D k, 0))) by auto. reflexivity.
+Qed.
+
 (* all eigenvalues >= -tol  <->  x^dagger A x >= -tol |x|^2 for every x *)
 Theorem verdict_correct tol :
   (forall k, (k < N)%nat -> - tol <= D k) <->
@@ -831,12 +848,12 @@ Proof.
       * intros H. inversion H; auto.
 Qed.
 
-Lemma eff_atol_nonzero d atol : atol <> 0 -> eff_atol RO d atol = atol.
+Lemma eff_atol_nonzero d atol D : atol <> 0 -> eff_atol RO d atol D = atol.
 Proof.
   intros H. unfold eff_atol; simpl. assert (E : Rgtb (Rabs atol) 0 = true).
   { apply Rgtb_true. apply Rabs_pos_lt; auto. } rewrite E. reflexivity.
 Qed.
-Lemma eff_atol_zero d : eff_atol RO d 0 = basis_atol RO d.
+Lemma eff_atol_zero d D : eff_atol RO d 0 D = basis_atol RO d * max1abs RO D.
 Proof.
   unfold eff_atol; simpl. assert (E : Rgtb (Rabs 0) 0 = false).
   { apply Rgtb_false. rewrite Rabs_R0. lra. } rewrite E. reflexivity.
@@ -851,10 +868,25 @@ Proof.
   rewrite basis_atol_val. pose proof (pos_INR d).
   assert (0 < / 2 ^ 52) by (apply Rinv_0_lt_compat, pow_lt; lra). nra.
 Qed.
-Lemma eff_atol_nonneg d atol : 0 <= atol -> 0 <= eff_atol RO d atol.
+(* max(1, |D|.max()) *)
+Lemma max1abs_spec D : 1 <= max1abs RO D /\ Forall (fun ev => Rabs ev <= max1abs RO D) D /\
+  (max1abs RO D = 1 \/ exists ev, In ev D /\ max1abs RO D = Rabs ev).
+Proof.
+  induction D as [|ev D [IH1 [IH2 IH3]]]; simpl.
+  - split; [lra | split; [constructor | left; reflexivity]].
+  - destruct (Rgtb (Rabs ev) (max1abs RO D)) eqn:E.
+    + apply Rgtb_true in E. split; [lra|]. split.
+      * constructor; [lra|]. eapply Forall_impl; [|exact IH2]. simpl. intros; lra.
+      * right. exists ev. split; auto.
+    + apply Rgtb_false in E. split; auto. split.
+      * constructor; auto.
+      * destruct IH3 as [H|[e [H1 H2]]]; [left; auto | right; exists e; split; auto].
+Qed.
+Lemma eff_atol_nonneg d atol D : 0 <= atol -> 0 <= eff_atol RO d atol D.
 Proof.
   intros H. destruct (Req_dec atol 0) as [->|Hn].
-  rewrite eff_atol_zero. apply basis_atol_nonneg. rewrite eff_atol_nonzero; auto.
+  - rewrite eff_atol_zero. pose proof (basis_atol_nonneg d). destruct (max1abs_spec D) as [H1 _]. nra.
+  - rewrite eff_atol_nonzero; auto.
 Qed.
 
 (* ---- the projector Q = 1 - |Omega><Omega| of liouville_is_cCP ---- *)
@@ -962,7 +994,6 @@ Theorem qform_projected Ch x :
 Proof. rewrite (qform_ext N _ _ x (toF_projected Ch)). apply qform_sandwiched. apply Qf_herm. Qed.
 End Projector.
 
-(* ============================ every code path of liouville_representation; stacks ============================ *)
 Lemma combine_nth_lt {A Bt} (l : list A) (l' : list Bt) t x y : (t < length l)%nat -> (t < length l')%nat ->
   nth t (combine l l') (x, y) = (nth t l x, nth t l' y).
 Proof.
@@ -970,45 +1001,246 @@ Proof.
   apply IH; lia.
 Qed.
 
+
+(* ---- counting the Gell-Mann basis: d^2 elements ---- *)
+Lemma filter_none {A} (f : A -> bool) l : (forall x, In x l -> f x = false) -> filter f l = [].
+Proof. induction l; simpl; intros H; auto. rewrite (H a) by auto. apply IHl. intros; apply H; auto. Qed.
+Lemma filter_all {A} (f : A -> bool) l : (forall x, In x l -> f x = true) -> filter f l = l.
+Proof. induction l; simpl; intros H; auto. rewrite (H a) by auto. f_equal. apply IHl. intros; apply H; auto. Qed.
+Lemma filter_ltb_seq d j : (j < d)%nat -> filter (Nat.ltb j) (seq 0 d) = seq (S j) (d - S j).
+Proof.
+  intros H. replace d with (S j + (d - S j))%nat at 1 by lia. rewrite seq_app, filter_app.
+  rewrite filter_none, filter_all; auto.
+  - intros x Hx. apply in_seq in Hx. apply Nat.ltb_lt. lia.
+  - intros x Hx. apply in_seq in Hx. apply Nat.ltb_ge. lia.
+Qed.
+Lemma ggm_pairs_prefix_length d m : (m <= d)%nat ->
+  (2 * length (concat (build m (fun j => map (fun k => (j, k)) (filter (Nat.ltb j) (seq 0 d))))) + m * m + m = 2 * m * d)%nat.
+Proof.
+  induction m; intros H. reflexivity.
+  rewrite build_S, concat_app, app_length. simpl concat. rewrite app_nil_r, map_length.
+  rewrite filter_ltb_seq by lia. rewrite seq_length. specialize (IHm ltac:(lia)). nia.
+Qed.
+Lemma ggm_pairs_length d : (2 * length (ggm_pairs d) + d = d * d)%nat.
+Proof. pose proof (ggm_pairs_prefix_length d d (le_n d)). unfold ggm_pairs. nia. Qed.
+Lemma ggm_basis_length d : (0 < d)%nat -> length (ggm_basis RO d) = (d * d)%nat.
+Proof.
+  intros H. unfold ggm_basis. simpl length. rewrite !app_length, !map_length, build_length.
+  pose proof (ggm_pairs_length d). destruct d; simpl Nat.pred; lia.
+Qed.
+Lemma ggm_expand_re_length d M : (0 < d)%nat -> length (ggm_expand_re RO d M) = (d * d)%nat.
+Proof.
+  intros H. rewrite ggm_expand_eq_expand. unfold expand_re. rewrite map_length. apply ggm_basis_length; auto.
+Qed.
+
+(* ---- the flags ---- *)
+Lemma le_flag_spec tol xs :
+  (le_flag RO tol xs = 1 <-> Forall (fun x => x <= tol) xs) /\ (le_flag RO tol xs = 1 \/ le_flag RO tol xs = 0).
+Proof.
+  induction xs as [|x xs [IH1 IH2]]; simpl.
+  - split; [split; auto | left; reflexivity].
+  - destruct (Rgtb x tol) eqn:E.
+    + apply Rgtb_true in E. split; [|right; reflexivity]. split.
+      * intros H. exfalso. lra.
+      * intros H. inversion H; subst. lra.
+    + apply Rgtb_false in E. split; auto. rewrite IH1. split.
+      * intros H. constructor; auto.
+      * intros H. inversion H; auto.
+Qed.
+
+Lemma sqrt_cabs2_bounds (z : Cx) t : sqrt (cabs2 RO z) <= t -> Rabs (fst z) <= t /\ Rabs (snd z) <= t.
+Proof.
+  intros H. destruct z as [a b]. unfold cabs2 in H. simpl in *.
+  split; (eapply Rle_trans; [|exact H]).
+  - rewrite <- sqrt_Rsqr_abs. apply sqrt_le_1_alt. unfold Rsqr. nra.
+  - rewrite <- sqrt_Rsqr_abs. apply sqrt_le_1_alt. unfold Rsqr. nra.
+Qed.
+
+Lemma sumn_abs n (f : nat -> R) : Rabs (sumn' n f) <= sumn' n (fun k => Rabs (f k)).
+Proof.
+  induction n; simpl. rewrite Rabs_R0. lra.
+  eapply Rle_trans. apply Rabs_triang. lra.
+Qed.
+
+(* ============================ every code path of liouville_representation; stacks ============================ *)
 Section Dispatch.
 Variable d : nat.
 Variable basis : list (Mat (T:=R)).
 Let n := length basis.
-(* the btype label 'GGM' is only ever attached to the Gell-Mann basis of Basis.ggm *)
-Definition label_ok (is_ggm : bool) : Prop := is_ggm = true -> basis = ggm_basis RO d.
 
-Theorem liouville_all_paths is_ggm U : label_ok is_ggm ->
-  liouville_representation RO d is_ggm U basis = liouville_generic RO d U basis.
+(* deviation of the basis from Basis.ggm(d), entry (k; i, j) *)
+Definition bdev (k i j : nat) : R :=
+  sqrt (cabs2 RO (csub' (mget RO (nthm basis k) i j) (mget RO (nthm (ggm_basis RO d) k) i j))).
+(* what `basis == Basis.ggm(d)` establishes *)
+Definition basis_close : Prop :=
+  forall k i j, (k < d * d)%nat -> (i < d)%nat -> (j < d)%nat -> bdev k i j <= basis_atol RO d.
+
+Lemma in_basis_devs x : In x (basis_devs RO d basis) <->
+  exists k i j, (k < d * d)%nat /\ (i < d)%nat /\ (j < d)%nat /\ x = bdev k i j.
 Proof.
-  intros H. unfold liouville_representation. destruct is_ggm; simpl; auto.
-  destruct (Nat.ltb ggm_threshold d); auto. rewrite (H eq_refl). apply ggm_path_eq_generic.
+  unfold basis_devs. rewrite in_concat. split.
+  - intros [l [Hl Hx]]. apply in_build in Hl. destruct Hl as [k [Hk ->]].
+    apply in_concat in Hx. destruct Hx as [l' [Hl' Hx]]. apply in_build in Hl'. destruct Hl' as [i [Hi ->]].
+    apply in_build in Hx. destruct Hx as [j [Hj ->]]. exists k, i, j. auto.
+  - intros [k [i [j [Hk [Hi [Hj ->]]]]]]. eexists. split. apply in_build. exists k. split; auto.
+    apply in_concat. eexists. split. apply in_build. exists i. split; auto. apply in_build. exists j. split; auto.
 Qed.
 
+Lemma ggm_flag_values : basis_is_ggm_flag RO d basis = 1 \/ basis_is_ggm_flag RO d basis = 0.
+Proof. apply le_flag_spec. Qed.
+Lemma ggm_flag_one_iff : basis_is_ggm_flag RO d basis = 1 <-> basis_close.
+Proof.
+  unfold basis_is_ggm_flag. rewrite (proj1 (le_flag_spec _ _)). rewrite Forall_forall. split.
+  - intros H k i j Hk Hi Hj. apply H. apply in_basis_devs. exists k, i, j. auto.
+  - intros H x Hx. apply in_basis_devs in Hx. destruct Hx as [k [i [j [Hk [Hi [Hj ->]]]]]]. apply H; auto.
+Qed.
+
+Definition guard (is_ggm : bool) : bool := is_ggm && Nat.ltb ggm_threshold d && Nat.eqb (length basis) (d * d).
 Notation LR := (fun is_ggm U => liouville_representation RO d is_ggm U basis).
 
-Theorem liouville_entries is_ggm U i j : label_ok is_ggm -> basis_herm d basis -> (i < n)%nat -> (j < n)%nat ->
+(* entry of the dispatcher *)
+Lemma LR_entry is_ggm U i j : (i < n)%nat -> (j < n)%nat ->
+  rget RO (LR is_ggm U) i j =
+  if guard is_ggm && Rgtb (basis_is_ggm_flag RO d basis) (half RO)
+  then rget RO (liouville_closed RO d U basis) i j else rget RO (liouville_generic RO d U basis) i j.
+Proof.
+  intros Hi Hj. cbv beta. unfold liouville_representation. fold (guard is_ggm). destruct (guard is_ggm); simpl; auto.
+  unfold rget at 1. unfold vg, nthv, vget. fold n. rewrite nth_build by auto. rewrite nth_build by auto. reflexivity.
+Qed.
+Lemma flag_gt_half : Rgtb (basis_is_ggm_flag RO d basis) (half RO) = true <-> basis_is_ggm_flag RO d basis = 1.
+Proof.
+  rewrite Rgtb_true. unfold half; simpl. unfold Rdya; simpl.
+  destruct ggm_flag_values as [E|E]; rewrite E; split; intros; try lra.
+Qed.
+
+(* closed-form entry = Re tr(U^dagger C_i U Lambda_j) *)
+Lemma closed_entry U i j : (0 < d)%nat -> (i < n)%nat -> (j < d * d)%nat ->
+  rget RO (liouville_closed RO d U basis) i j
+  = fst (ftr d (fmul d (toF (transform_by_unitary RO d U (nthm basis i))) (Cl (ggm_basis RO d) j))).
+Proof.
+  intros Hd Hi Hj. unfold rget, vg, nthv, liouville_closed.
+  rewrite (nth_map_default (A:=Mat (T:=R)) (ggm_expand_re RO d) _ _ [] [])
+    by (unfold conjugated_basis; rewrite map_length; auto).
+  fold (nthm (conjugated_basis RO d U basis) i). rewrite conjugated_basis_nth by auto.
+  rewrite ggm_expand_eq_expand. apply expand_re_nth. rewrite ggm_basis_length; auto.
+Qed.
+Lemma generic_entry U i j : (i < n)%nat -> (j < n)%nat ->
+  rget RO (liouville_generic RO d U basis) i j
+  = fst (ftr d (fmul d (toF (transform_by_unitary RO d U (nthm basis i))) (Cl basis j))).
+Proof.
+  intros Hi Hj. unfold rget, vg, nthv, liouville_generic.
+  rewrite (nth_map_default (A:=Mat (T:=R)) (fun M => expand_re RO d M basis) _ _ [] [])
+    by (unfold conjugated_basis; rewrite map_length; auto).
+  fold (nthm (conjugated_basis RO d U basis) i). rewrite conjugated_basis_nth by auto.
+  apply expand_re_nth; auto.
+Qed.
+
+Definition l1norm (A : fmat) : R :=
+  sumn' d (fun a => sumn' d (fun b => Rabs (fst (A a b)) + Rabs (snd (A a b)))).
+Lemma l1norm_nonneg A : 0 <= l1norm A.
+Proof.
+  apply sumn_nonneg. intros a _. apply sumn_nonneg. intros b _.
+  pose proof (Rabs_pos (fst (A a b))). pose proof (Rabs_pos (snd (A a b))). lra.
+Qed.
+
+Lemma trace_diff_bound A Bm Bm' tol :
+  (forall a b, (a < d)%nat -> (b < d)%nat -> sqrt (cabs2 RO (csub' (Bm' a b) (Bm a b))) <= tol) ->
+  Rabs (fst (ftr d (fmul d A Bm)) - fst (ftr d (fmul d A Bm'))) <= tol * l1norm A.
+Proof.
+  intros H. unfold ftr, fmul, l1norm.
+  rewrite !csumn_re. rewrite <- Rabs_Ropp.
+  replace (- (sumn' d (fun k => fst (csumn' d (fun k0 => cmul' (A k k0) (Bm k0 k)))) -
+              sumn' d (fun k => fst (csumn' d (fun k0 => cmul' (A k k0) (Bm' k0 k))))))
+    with (sumn' d (fun a => sumn' d (fun b => fst (cmul' (A a b) (csub' (Bm' b a) (Bm b a)))))).
+  2:{ replace (- (sumn' d (fun k => fst (csumn' d (fun k0 => cmul' (A k k0) (Bm k0 k)))) -
+                 sumn' d (fun k => fst (csumn' d (fun k0 => cmul' (A k k0) (Bm' k0 k))))))
+        with (sumn' d (fun k => fst (csumn' d (fun k0 => cmul' (A k k0) (Bm' k0 k))))
+              + (-1) * sumn' d (fun k => fst (csumn' d (fun k0 => cmul' (A k k0) (Bm k0 k))))) by ring.
+      rewrite <- sumn_mul_l, <- sumn_add. apply sumn_ext. intros a _.
+      rewrite !csumn_re. rewrite <- sumn_mul_l, <- sumn_add. apply sumn_ext. intros b _. csimp. ring. }
+  rewrite <- sumn_mul_l. eapply Rle_trans. apply sumn_abs. apply sumn_le. intros a Ha.
+  rewrite <- sumn_mul_l. eapply Rle_trans. apply sumn_abs. apply sumn_le. intros b Hb.
+  destruct (sqrt_cabs2_bounds _ _ (H b a Hb Ha)) as [H1 H2].
+  set (e := csub' (Bm' b a) (Bm b a)) in *. csimp.
+  pose proof (Rabs_pos (fst (A a b))). pose proof (Rabs_pos (snd (A a b))).
+  eapply Rle_trans. apply Rabs_triang. rewrite Rabs_Ropp, !Rabs_mult.
+  assert (Rabs (fst (A a b)) * Rabs (fst e) <= Rabs (fst (A a b)) * tol) by (apply Rmult_le_compat_l; auto).
+  assert (Rabs (snd (A a b)) * Rabs (snd e) <= Rabs (snd (A a b)) * tol) by (apply Rmult_le_compat_l; auto).
+  change (fst e) with (fst (Bm' b a) - fst (Bm b a)) in *. change (snd e) with (snd (Bm' b a) - snd (Bm b a)) in *.
+  lra.
+Qed.
+
+(* C15_all_paths, no hypothesis on labels: the dispatcher differs from the generic path by at most
+   atol * |U^dagger C_i U|_1 (atol = eps d^3 of the `==` test), and not at all when the closed-form path is not taken *)
+Theorem liouville_all_paths is_ggm U i j : (i < n)%nat -> (j < n)%nat ->
+  Rabs (rget RO (LR is_ggm U) i j - rget RO (liouville_generic RO d U basis) i j)
+  <= basis_atol RO d * l1norm (toF (transform_by_unitary RO d U (nthm basis i))).
+Proof.
+  intros Hi Hj. cbv beta. rewrite LR_entry by auto.
+  assert (Z : 0 <= basis_atol RO d * l1norm (toF (transform_by_unitary RO d U (nthm basis i)))).
+  { apply Rmult_le_pos. apply basis_atol_nonneg. apply l1norm_nonneg. }
+  destruct (guard is_ggm) eqn:G; cbn [andb].
+  2:{ rewrite Rminus_diag_eq by reflexivity. rewrite Rabs_R0. exact Z. }
+  destruct (Rgtb (basis_is_ggm_flag RO d basis) (half RO)) eqn:F.
+  2:{ rewrite Rminus_diag_eq by reflexivity. rewrite Rabs_R0. exact Z. }
+  apply flag_gt_half in F. apply ggm_flag_one_iff in F.
+  unfold guard in G. apply andb_prop in G. destruct G as [G1 G2]. apply andb_prop in G1. destruct G1 as [_ G1].
+  apply Nat.ltb_lt in G1. apply Nat.eqb_eq in G2. unfold ggm_threshold in G1.
+  assert (Hd : (0 < d)%nat) by lia. fold n in G2.
+  rewrite closed_entry by (auto; lia). rewrite generic_entry by auto.
+  apply trace_diff_bound. intros a b Ha Hb. apply (F j a b); auto. lia.
+Qed.
+
+(* exact version: a basis that passes the `==` test with the Gell-Mann basis is the Gell-Mann basis *)
+Definition close_exact : Prop := basis_close -> basis = ggm_basis RO d.
+
+Theorem liouville_all_paths_exact is_ggm U i j : close_exact -> (i < n)%nat -> (j < n)%nat ->
+  rget RO (LR is_ggm U) i j = rget RO (liouville_generic RO d U basis) i j.
+Proof.
+  intros Hx Hi Hj. cbv beta. rewrite LR_entry by auto. destruct (guard is_ggm); cbn [andb]; auto.
+  destruct (Rgtb (basis_is_ggm_flag RO d basis) (half RO)) eqn:F; auto.
+  apply flag_gt_half in F. apply ggm_flag_one_iff in F.
+  assert (E : liouville_closed RO d U basis = liouville_generic RO d U basis).
+  { rewrite (Hx F). apply ggm_path_eq_generic. }
+  rewrite E. reflexivity.
+Qed.
+(* when the guard fails the generic path is taken, whatever the label says *)
+Theorem liouville_guard_false is_ggm U : guard is_ggm = false ->
+  liouville_representation RO d is_ggm U basis = liouville_generic RO d U basis.
+Proof. intros H. unfold liouville_representation. fold (guard is_ggm). rewrite H. reflexivity. Qed.
+
+Theorem liouville_entries is_ggm U i j : close_exact -> basis_herm d basis -> (i < n)%nat -> (j < n)%nat ->
   ftr d (fmul d (Cl basis i) (fmul d (toF U) (fmul d (Cl basis j) (fadj (toF U)))))
   = (rget RO (LR is_ggm U) i j, 0).
-Proof. intros Hl. cbv beta. rewrite liouville_all_paths by auto. apply liouville_entries_generic. Qed.
+Proof. intros Hx Hh Hi Hj. cbv beta. rewrite liouville_all_paths_exact by auto. apply liouville_entries_generic; auto. Qed.
 
-Theorem liouville_id is_ggm i j : label_ok is_ggm -> basis_orth d basis -> (i < n)%nat -> (j < n)%nat ->
+Theorem liouville_id is_ggm i j : close_exact -> basis_orth d basis -> (i < n)%nat -> (j < n)%nat ->
   rget RO (LR is_ggm (mid RO d)) i j = if Nat.eqb i j then 1 else 0.
-Proof. intros Hl. cbv beta. rewrite liouville_all_paths by auto. apply liouville_id_generic. Qed.
+Proof. intros Hx Ho Hi Hj. cbv beta. rewrite liouville_all_paths_exact by auto. apply liouville_id_generic; auto. Qed.
 
-Theorem liouville_mult is_ggm U V i j : label_ok is_ggm -> basis_herm d basis -> basis_complete d basis ->
+Theorem liouville_mult is_ggm U V i j : close_exact -> basis_herm d basis -> basis_complete d basis ->
   (i < n)%nat -> (j < n)%nat ->
   rget RO (LR is_ggm (mmul RO d U V)) i j = sumn' n (fun k => rget RO (LR is_ggm U) i k * rget RO (LR is_ggm V) k j).
-Proof. intros Hl. cbv beta. rewrite !liouville_all_paths by auto. apply liouville_mult_generic. Qed.
+Proof.
+  intros Hx Hh Hc Hi Hj. cbv beta. rewrite liouville_all_paths_exact by auto.
+  rewrite (liouville_mult_generic d basis U V i j Hh Hc Hi Hj). apply sumn_ext. intros k Hk.
+  rewrite !liouville_all_paths_exact by auto. reflexivity.
+Qed.
 
-Theorem liouville_orthogonal is_ggm U i j : label_ok is_ggm -> basis_herm d basis -> basis_orth d basis ->
+Theorem liouville_orthogonal is_ggm U i j : close_exact -> basis_herm d basis -> basis_orth d basis ->
   basis_complete d basis -> funitary d (toF U) -> (i < n)%nat -> (j < n)%nat ->
   sumn' n (fun k => rget RO (LR is_ggm U) k i * rget RO (LR is_ggm U) k j) = (if Nat.eqb i j then 1 else 0) /\
   sumn' n (fun k => rget RO (LR is_ggm U) i k * rget RO (LR is_ggm U) j k) = (if Nat.eqb i j then 1 else 0).
-Proof. intros Hl. cbv beta. rewrite !liouville_all_paths by auto. apply liouville_orthogonal_generic. Qed.
+Proof.
+  intros Hx Hh Ho Hc HU Hi Hj. cbv beta.
+  destruct (liouville_orthogonal_generic d basis U i j Hh Ho Hc HU Hi Hj) as [H1 H2]. split.
+  - rewrite <- H1. apply sumn_ext. intros k Hk. rewrite !liouville_all_paths_exact by auto. reflexivity.
+  - rewrite <- H2. apply sumn_ext. intros k Hk. rewrite !liouville_all_paths_exact by auto. reflexivity.
+Qed.
 
-Theorem liouville_adjoint is_ggm U i j : label_ok is_ggm -> (i < n)%nat -> (j < n)%nat ->
+Theorem liouville_adjoint is_ggm U i j : close_exact -> (i < n)%nat -> (j < n)%nat ->
   rget RO (LR is_ggm (madj RO d U)) i j = rget RO (LR is_ggm U) j i.
-Proof. intros Hl. cbv beta. rewrite !liouville_all_paths by auto. apply liouville_adjoint_generic. Qed.
+Proof. intros Hx Hi Hj. cbv beta. rewrite !liouville_all_paths_exact by auto. apply liouville_adjoint_generic; auto. Qed.
 
 (* ---- stacks of unitaries: the leading axis is mapped over ---- *)
 Lemma liouville_stack_nth is_ggm Us t : (t < length Us)%nat ->
@@ -1021,7 +1253,7 @@ Proof. unfold liouville_stack. apply map_length. Qed.
 Definition stack_mul (Us Vs : list (Mat (T:=R))) : list (Mat (T:=R)) :=
   map (fun UV => mmul RO d (fst UV) (snd UV)) (combine Us Vs).
 
-Theorem liouville_stack_mult is_ggm Us Vs t i j : label_ok is_ggm -> basis_herm d basis -> basis_complete d basis ->
+Theorem liouville_stack_mult is_ggm Us Vs t i j : close_exact -> basis_herm d basis -> basis_complete d basis ->
   (t < length Us)%nat -> (t < length Vs)%nat -> (i < n)%nat -> (j < n)%nat ->
   rget RO (nth t (liouville_stack RO d is_ggm (stack_mul Us Vs) basis) []) i j
   = sumn' n (fun k => rget RO (nth t (liouville_stack RO d is_ggm Us basis) []) i k
@@ -1037,7 +1269,7 @@ Proof.
   apply liouville_mult; auto.
 Qed.
 
-Theorem liouville_stack_orthogonal is_ggm Us t i j : label_ok is_ggm -> basis_herm d basis -> basis_orth d basis ->
+Theorem liouville_stack_orthogonal is_ggm Us t i j : close_exact -> basis_herm d basis -> basis_orth d basis ->
   basis_complete d basis -> (t < length Us)%nat -> funitary d (toF (nth t Us [])) -> (i < n)%nat -> (j < n)%nat ->
   let L := nth t (liouville_stack RO d is_ggm Us basis) [] in
   sumn' n (fun k => rget RO L k i * rget RO L k j) = (if Nat.eqb i j then 1 else 0) /\
@@ -1047,12 +1279,13 @@ Proof.
   apply liouville_orthogonal; auto.
 Qed.
 
-Theorem liouville_stack_entries is_ggm Us t i j : label_ok is_ggm -> basis_herm d basis ->
+Theorem liouville_stack_entries is_ggm Us t i j : close_exact -> basis_herm d basis ->
   (t < length Us)%nat -> (i < n)%nat -> (j < n)%nat ->
   ftr d (fmul d (Cl basis i) (fmul d (toF (nth t Us [])) (fmul d (Cl basis j) (fadj (toF (nth t Us []))))))
   = (rget RO (nth t (liouville_stack RO d is_ggm Us basis) []) i j, 0).
 Proof. intros Hl Hh Ht Hi Hj. rewrite liouville_stack_nth by auto. apply liouville_entries; auto. Qed.
 End Dispatch.
+
 
 (* ============================ verdicts of liouville_is_CP / liouville_is_cCP ============================ *)
 Lemma verdict_correct_re N A V D tol : funitary N V -> feq N A (fmul N V (fmul N (fdiagR D) (fadj V))) ->
@@ -1084,6 +1317,16 @@ Theorem psd_flag_correct A thr : eig_valid A ->
 Proof.
   intros [HL [HV HA]]. destruct (psd_flag_spec thr Dl) as [H1 H2]. split; auto.
   rewrite H1. rewrite (Forall_Dl _ HL). apply verdict_correct_re with (V := V); auto.
+Qed.
+
+(* the eigenvalues lie in the numerical range *)
+Lemma eig_range A lo hi : eig_valid A ->
+  (forall x, lo * vnorm2 N x <= fst (qform N A x) <= hi * vnorm2 N x) ->
+  Forall (fun ev => lo <= ev <= hi) Dl.
+Proof.
+  intros [HL [HV HA]] H. apply (Forall_Dl _ HL). intros k Hk.
+  destruct (eig_attained N A V Dfun HV HA k Hk) as [x [H1 H2]].
+  specialize (H x). rewrite H1, H2 in H. simpl in H. lra.
 Qed.
 
 Corollary flag_one_of_psd A thr : eig_valid A -> 0 <= thr -> (forall x, 0 <= fst (qform N A x)) ->
